@@ -226,6 +226,8 @@ class _exponential(_Potential_Function_Base):
     :param n: Potentials' B parameter
 
     :return: Derivative of `exponential` at `r`"""
+    if n == 0:
+      return 0.0
     return A*n*r**(n-1)
 
   def deriv2(self, r, A,n):
@@ -236,6 +238,8 @@ class _exponential(_Potential_Function_Base):
     :param n: Potentials' B parameter
 
     :return: 2nd derivative of `exponential` at `r`"""
+    if n == 0 or n == 1:
+      return 0.0
     return A*n*(n-1)*r**(n-2) 
 
 exponential = _exponential()
@@ -403,7 +407,7 @@ class _polynomial(_Potential_Function_Base):
 
     :return: derivative of polynomial at `r` """
     r, coefs = self._split_args(args)
-    v = [float(i) * r**float(i-1) * c for (i,c) in enumerate(coefs)][1:]
+    v = [float(i) * r**float(i-1) * c for (i,c) in enumerate(coefs) if i >= 1]
     return sum([0]+v)
 
   def deriv2(self, *args):
@@ -414,7 +418,7 @@ class _polynomial(_Potential_Function_Base):
 
     :return: 2nd derivative of polynomial at `r` """
     r, coefs = self._split_args(args)
-    v = [i * float(i-1) * r**float(i-2) * c for (i,c) in enumerate(coefs)][2:]
+    v = [i * float(i-1) * r**float(i-2) * c for (i,c) in enumerate(coefs) if i >= 2]
     return sum([0]+v)
 
 polynomial = _polynomial()
